@@ -278,6 +278,7 @@ fn run_one(out: &mut dyn Write, line: &str, epoch: &mut u64) {
     let lc = LoopConfig { test: c.u64("test", 0) != 0, tsc, threads: c.u64("T", 1) as usize, options };
 
     let v0 = allocs::SANDWICH_VIOLATIONS.load(std::sync::atomic::Ordering::SeqCst);
+    tracked::prefill_stash();
     evlog::reset();
     evlog::enable(true);
     evlog::log(evlog::RUN_BEGIN, 0, 0, 0);
